@@ -116,6 +116,7 @@ type State struct {
 	known  []string  // known-finding classes this path belongs to
 	yields []string  // vYield ids granted on this path
 	uf     bool      // an uninterpreted-function stub influenced this path
+	lastNow *Term
 }
 
 type ndRec struct {
@@ -148,6 +149,7 @@ type Machine struct {
 	lazyInits []string
 	stubs    map[string]int
 	lenientFmt bool
+	timeT    types.Type
 }
 
 func (m *Machine) newState() *State {
@@ -207,6 +209,7 @@ func (s *State) clone() *State {
 	n.known = append([]string(nil), s.known...)
 	n.yields = append([]string(nil), s.yields...)
 	n.uf = s.uf
+	n.lastNow = s.lastNow
 	n.pc = append([]*Term(nil), s.pc...)
 	n.reached = map[string]bool{}
 	for k := range s.reached {
